@@ -18,6 +18,11 @@ E1 (bounded exhaustive enumeration against mc/ref_c14.py, which shares no code w
              strict u with tails up to 9, two-factor u): occurrences_sp against Lemma 3.12 directly,
              occurrences/contains against the letter test; thorough: spirals behind a rigid prefix
              against brute-force containment with all pin words of the pattern enumerated
+  forms      every argument form (iterables of every kind for pinwords_for_basis; keyword / instance forms)
+  fresh      list-like results damaged in place by the caller, then asked again along several routes
+             (the three cached tables: off by default, flag VERIF_C14_FRESH_TABLES=1 or --only fresh_tables)
+  abort      an exception injected at every k-th library call of an operation (first-time table builds,
+             decode, containment queries), then everything read back
   interleave two live pinword_occurrences generators advanced alternately
   history    BFS over histories that interleave the direct entry points (pinword_to_perm, quadrant,
              factor_pinword, occurrences/contains, sp_to_m/m_to_sp, pinwords_of_length) with
@@ -46,6 +51,10 @@ SIG_OCC = "C14|pinword_occurrences|later factor on a direction letter directly a
 SIG_CON = "C14|pinword_contains|later factor on a direction letter directly after the previous factor"
 
 QUAD_DIRS = {"1": "RU", "2": "LU", "3": "LD", "4": "RD"}
+
+
+class _Abort(BaseException):
+    """Injected by the abort sub-check (stands for Ctrl-C / an exception out of the caller's loop)."""
 
 
 def _PW():
@@ -158,7 +167,7 @@ def check_word(part, PW, w):
     try:
         got = tuple(PW.pinword_to_perm(w))
     except BaseException as exc:  # noqa  (the decoder uses `assert False`)
-        if isinstance(exc, (KeyboardInterrupt, SystemExit)):
+        if isinstance(exc, (KeyboardInterrupt, SystemExit, _Abort)):
             raise
         part.violation("decode", {"word": w}, {"exception": repr(exc)})
         got = None
@@ -928,7 +937,7 @@ def _do_direct(PW, op):
         try:
             got = tuple(PW.pinword_to_perm(w))
         except BaseException as exc:  # noqa
-            if isinstance(exc, (KeyboardInterrupt, SystemExit)):
+            if isinstance(exc, (KeyboardInterrupt, SystemExit, _Abort)):
                 raise
             return {"exception": repr(exc)}
         if got != F.perm_of(w):
@@ -1431,8 +1440,472 @@ def shard_scale_perm(shard):
 
 
 # --------------------------------------------------------------------------------------------
+# forms: the same logical input in every argument form the signatures admit
+# --------------------------------------------------------------------------------------------
+# pinwords_for_basis(basis) iterates "any iterable of Perm": list, tuple, set, frozenset, dict
+# keys, one-shot iterator, generator expression, map object, reversed, repeated elements, mixed
+# lengths, the library's Basis object and Perm.of_length generator.  Every other entry point takes
+# str / int: positional, keyword (also in swapped keyword order), through an instance instead of the
+# class.  Oracle: the reference answer, whatever the form.
+
+def _basis_forms(seq, Perm):
+    """(name, argument, effective sequence of perm tuples)."""
+    mk = lambda: [Perm(p) for p in seq]          # noqa: E731
+    uniq = list(dict.fromkeys(seq))
+    yield "list", mk(), seq
+    yield "tuple", tuple(mk()), seq
+    yield "iter", iter(mk()), seq
+    yield "generator", (Perm(p) for p in seq), seq
+    yield "map", map(Perm, seq), seq
+    yield "reversed", reversed(mk()), seq[::-1]
+    yield "set", set(mk()), uniq
+    yield "frozenset", frozenset(mk()), uniq
+    yield "dict_keys", dict.fromkeys(mk()).keys(), uniq
+    yield "keyword", ("kw", mk()), seq
+
+
+def check_basis_forms(part, PW, Perm, seq, only_form=None):
+    for name, arg, eff in _basis_forms(list(seq), Perm):
+        if only_form is not None and name != only_form:
+            continue
+        exp = sorted(w for p in eff for w in ref_tables_cached(len(p))[1].get(tuple(p), ()))
+        try:
+            if name == "keyword":
+                got = PW.pinwords_for_basis(basis=arg[1])
+            else:
+                got = PW.pinwords_for_basis(arg)
+            got = sorted(got)
+        except Exception as exc:  # noqa
+            part.violation("forms", {"fn": "pinwords_for_basis", "basis": list(seq), "form": name},
+                           {"exception": repr(exc)})
+            continue
+        if got != exp:
+            part.violation("forms", {"fn": "pinwords_for_basis", "basis": list(seq), "form": name},
+                           {"n_expected": len(exp), "n_got": len(got),
+                            "missing": sorted(set(exp) - set(got))[:4], "extra": sorted(set(got) - set(exp))[:4]})
+
+
+def check_library_basis_forms(part, PW, Perm, L):
+    """The library's own containers / generators as `basis`."""
+    p2w = ref_tables_cached(L)[1]
+    from permuta.perm_sets.basis import Basis
+    cases = [("Perm.of_length", lambda: Perm.of_length(L), R.perms(L))]
+    pool = R.perms(L)
+    for k in (1, 2):
+        for sub in itertools.combinations(pool, k):
+            b = Basis(*[Perm(p) for p in sub])
+            cases.append(("Basis%r" % (sub,), (lambda b=b: b), [tuple(x) for x in b]))
+    for name, mk, eff in cases:
+        exp = sorted(w for p in eff for w in p2w.get(tuple(p), ()))
+        try:
+            got = sorted(PW.pinwords_for_basis(mk()))
+        except Exception as exc:  # noqa
+            part.violation("forms", {"fn": "pinwords_for_basis", "length": L, "form": name}, {"exception": repr(exc)})
+            continue
+        if got != exp:
+            part.violation("forms", {"fn": "pinwords_for_basis", "length": L, "form": name},
+                           {"n_expected": len(exp), "n_got": len(got)})
+        part.add(1, 1)
+
+
+def _accept(got, G, D):
+    """Containment answers: the geometric one, or (known finding, counted elsewhere) the deviation."""
+    return got == G or got == D
+
+
+def check_word_forms(part, PW, w, us):
+    """Keyword / instance / swapped-keyword forms of every str-taking entry point."""
+    inst = PW()
+    case = {"fn": "str entry points", "w": w}
+    bad = []
+    try:
+        exp = F.perm_of(w)
+        if tuple(PW.pinword_to_perm(word=w)) != exp or tuple(inst.pinword_to_perm(w)) != exp:
+            bad.append("pinword_to_perm")
+        q = F.quadrants(w)
+        for i in range(len(w)):
+            if PW.quadrant(word=w, ind=i) != q[i] or PW.quadrant(ind=i, word=w) != q[i] or inst.quadrant(w, i) != q[i]:
+                bad.append("quadrant[%d]" % i)
+        if list(PW.factor_pinword(word=w)) != F.factors(w) or list(inst.factor_pinword(w)) != F.factors(w):
+            bad.append("factor_pinword")
+        for u in us:
+            G = F.geometric_occurrences(w, u)
+            D = F.letter_occurrences(w, u, False)
+            for name, got in (("occurrences(word=,u_word=)", PW.pinword_occurrences(word=w, u_word=u)),
+                              ("occurrences(u_word=,word=)", PW.pinword_occurrences(u_word=u, word=w)),
+                              ("instance.occurrences", inst.pinword_occurrences(w, u))):
+                if not _accept(sorted(got), sorted(G), sorted(D)):
+                    bad.append("%s u=%s" % (name, u))
+            for name, got in (("contains(word=,u_word=)", PW.pinword_contains(word=w, u_word=u)),
+                              ("contains(u_word=,word=)", PW.pinword_contains(u_word=u, word=w)),
+                              ("instance.contains", inst.pinword_contains(w, u))):
+                if not _accept(got, bool(G), bool(D)):
+                    bad.append("%s u=%s" % (name, u))
+            if F.is_strict(u):
+                e = [st[0] for st in G]
+                for s in range(len(w) + 1):
+                    es = [x for x in e if x >= s]
+                    if sorted(PW.pinword_occurrences_sp(word=w, u_word=u, start_index=s)) != es or \
+                       sorted(PW.pinword_occurrences_sp(w, u, start_index=s)) != es or \
+                       sorted(inst.pinword_occurrences_sp(start_index=s, u_word=u, word=w)) != es:
+                        bad.append("occurrences_sp u=%s start=%d" % (u, s))
+                if PW.pinword_contains_sp(word=w, u_word=u) != bool(e) or inst.pinword_contains_sp(u_word=u, word=w) != bool(e):
+                    bad.append("contains_sp u=%s" % u)
+    except Exception as exc:  # noqa
+        part.violation("forms", case, {"exception": repr(exc), "wrong_so_far": bad[:5]})
+        return
+    if bad:
+        part.violation("forms", case, {"wrong": bad[:8]})
+
+
+def check_misc_forms(part, PW, L):
+    """Keyword forms of the int-taking entry points and of the translations."""
+    inst = PW()
+    bad = []
+    case = {"fn": "int entry points", "length": L}
+    try:
+        ref = sorted(ref_words(L))
+        if sorted(PW.pinwords_of_length(length=L)) != ref or sorted(inst.pinwords_of_length(L)) != ref:
+            bad.append("pinwords_of_length")
+        if L >= 1 and sorted(PW.strict_pinwords_of_length(length=L)) != [w for w in ref if F.is_strict(w)]:
+            bad.append("strict_pinwords_of_length")
+        w2p, p2w, strict = ref_tables_cached(L)
+        for name, call in (("keyword", lambda f: f(length=L)), ("instance", lambda f: f(L))):
+            src = PW if name == "keyword" else inst
+            if {w: tuple(p) for w, p in call(src.pinword_to_perm_mapping).items()} != w2p:
+                bad.append("pinword_to_perm_mapping/" + name)
+            if {tuple(p): set(ws) for p, ws in call(src.perm_to_pinword_mapping).items() if ws} != p2w:
+                bad.append("perm_to_pinword_mapping/" + name)
+            got = {tuple(p): set(ws) for p, ws in call(src.perm_to_strict_pinword_mapping).items() if ws}
+            if L >= 1 and got != strict:
+                bad.append("perm_to_strict_pinword_mapping/" + name)
+        for u in strict_words(L) if L >= 1 else []:
+            if sorted(PW.sp_to_m(word=u)) != ref_sp_to_m(u) or sorted(inst.sp_to_m(u)) != ref_sp_to_m(u):
+                bad.append("sp_to_m %s" % u)
+            if not PW.is_strict_pinword(word=u):
+                bad.append("is_strict_pinword %s" % u)
+        for m in F.m_words(L) if L >= 2 else []:
+            if PW.m_to_sp(word=m) != ref_m_to_sp(m) or inst.m_to_sp(m) != ref_m_to_sp(m):
+                bad.append("m_to_sp %s" % m)
+    except Exception as exc:  # noqa
+        part.violation("forms", case, {"exception": repr(exc), "wrong_so_far": bad[:5]})
+        return
+    if bad:
+        part.violation("forms", case, {"wrong": bad[:8]})
+
+
+def shard_forms(shard):
+    kind = shard[0]
+    PW, Perm = _PW(), _Perm()
+    part = Partial()
+    if kind == "basis":
+        for seq in shard[1]:
+            check_basis_forms(part, PW, Perm, seq)
+        part.add(10 * len(shard[1]), 10 * sum(1 for s in shard[1] if len(s) >= 2))
+        part.bump("forms_basis_sequences", len(shard[1]))
+    elif kind == "libbasis":
+        check_library_basis_forms(part, PW, Perm, shard[1])
+    elif kind == "words":
+        us = [u for k in range(0, 3) for u in ref_words(k)]
+        for w in shard[1]:
+            check_word_forms(part, PW, w, us)
+        part.add(len(shard[1]) * len(us), len(shard[1]) * len(us))
+        part.bump("forms_word_pairs", len(shard[1]) * len(us))
+    else:
+        check_misc_forms(part, PW, shard[1])
+        part.add(1, 1)
+    return part
+
+
+# --------------------------------------------------------------------------------------------
+# fresh: results that are mutable containers are damaged in place, then the question is asked again
+# --------------------------------------------------------------------------------------------
+
+SENTINEL = "<damaged by the caller>"
+
+
+def _damage(x, depth=0):
+    """Damage a returned container in place at every nesting level; returns True if anything
+    mutable was found."""
+    hit = False
+    if depth > 4:
+        return hit
+    if isinstance(x, dict):
+        for v in list(x.values()):
+            hit |= _damage(v, depth + 1)
+        x.clear()
+        x[SENTINEL] = SENTINEL
+        return True
+    if isinstance(x, list):
+        for v in list(x):
+            hit |= _damage(v, depth + 1)
+        x.reverse()
+        x.clear()
+        x.append(SENTINEL)
+        return True
+    if isinstance(x, set):
+        x.clear()
+        x.add(SENTINEL)
+        return True
+    if isinstance(x, (tuple, frozenset)):
+        for v in x:
+            hit |= _damage(v, depth + 1)
+    return hit
+
+
+def check_fresh_word(part, PW, w, us):
+    """factor_pinword / occurrences lists: check, damage, ask again along several routes."""
+    inst = PW()
+    w2 = "".join(list(w))           # an equal, distinct str object
+    routes = (("same object", lambda: PW.factor_pinword(w)), ("equal object", lambda: PW.factor_pinword(w2)),
+              ("instance", lambda: inst.factor_pinword(w)), ("keyword", lambda: PW.factor_pinword(word=w2)))
+    exp = F.factors(w)
+    try:
+        for rounds in range(2):
+            for name, call in routes:
+                r = call()
+                if list(r) != exp:
+                    part.violation("fresh", {"fn": "factor_pinword", "w": w},
+                                   {"route": name, "round": rounds, "expected": exp, "got": list(r)[:8]})
+                    return
+                _damage(r)
+        for u in us:
+            G, D = sorted(F.geometric_occurrences(w, u)), sorted(F.letter_occurrences(w, u, False))
+            for rounds in range(2):
+                for name, call in (("same", lambda: PW.pinword_occurrences(w, u)),
+                                   ("equal", lambda: PW.pinword_occurrences(w2, "".join(list(u)))),
+                                   ("instance", lambda: inst.pinword_occurrences(w, u))):
+                    r = call()
+                    lst = r if isinstance(r, list) else list(r)
+                    if not _accept(sorted(map(tuple, lst)), G, D):
+                        part.violation("fresh", {"fn": "pinword_occurrences", "w": w, "u": u},
+                                       {"route": name, "round": rounds, "expected": G, "got": lst[:8]})
+                        return
+                    _damage(lst)
+                    if isinstance(r, (list, dict, set)):
+                        _damage(r)
+            t = PW.sp_to_m(u) if F.is_strict(u) else None
+            if t is not None:
+                if sorted(t) != ref_sp_to_m(u):
+                    part.violation("fresh", {"fn": "sp_to_m", "w": u}, {"got": list(t)})
+                    return
+                if _damage(t) or isinstance(t, list) and _damage(t):
+                    pass
+                if sorted(PW.sp_to_m(u)) != ref_sp_to_m(u):
+                    part.violation("fresh", {"fn": "sp_to_m", "w": u}, {"after_damage": list(PW.sp_to_m(u))})
+                    return
+    except Exception as exc:  # noqa
+        part.violation("fresh", {"fn": "factor_pinword/pinword_occurrences", "w": w}, {"exception": repr(exc)})
+
+
+def check_fresh_basis(part, PW, Perm, seq):
+    exp = sorted(w for p in seq for w in ref_tables_cached(len(p))[1].get(tuple(p), ()))
+    basis = [Perm(p) for p in seq]
+    inst = PW()
+    routes = (("same object", lambda: PW.pinwords_for_basis(basis)),
+              ("equal objects", lambda: PW.pinwords_for_basis([Perm(tuple(p)) for p in seq])),
+              ("tuple", lambda: PW.pinwords_for_basis(tuple(Perm(p) for p in seq))),
+              ("instance", lambda: inst.pinwords_for_basis(basis)))
+    try:
+        for rounds in range(2):
+            for name, call in routes:
+                r = call()
+                if sorted(r) != exp:
+                    part.violation("fresh", {"fn": "pinwords_for_basis", "basis": list(seq)},
+                                   {"route": name, "round": rounds, "n_expected": len(exp), "got": list(r)[:6]})
+                    return
+                _damage(r)
+    except Exception as exc:  # noqa
+        part.violation("fresh", {"fn": "pinwords_for_basis", "basis": list(seq)}, {"exception": repr(exc)})
+
+
+def check_fresh_enum(part, PW, L):
+    ref = sorted(ref_words(L))
+    try:
+        for rounds in range(2):
+            for name, call in (("pinwords_of_length", lambda: PW.pinwords_of_length(L)),
+                               ("strict_pinwords_of_length", lambda: PW.strict_pinwords_of_length(L))):
+                r = call()
+                lst = r if isinstance(r, list) else list(r)
+                e = ref if name == "pinwords_of_length" else [w for w in ref if F.is_strict(w) or w == ""]
+                if sorted(lst) != e and not (L == 0 and name.startswith("strict")):
+                    part.violation("fresh", {"fn": name, "length": L}, {"round": rounds, "n_got": len(lst)})
+                    return
+                _damage(lst)
+                if isinstance(r, (list, dict, set)):
+                    _damage(r)
+    except Exception as exc:  # noqa
+        part.violation("fresh", {"fn": "pinwords_of_length", "length": L}, {"exception": repr(exc)})
+
+
+def check_fresh_tables(part, PW, Perm, L, which, how):
+    """OFF by default (see run): the three cached tables are handed out as shared dict objects; the
+    caller damages what it received, then everything is asked again."""
+    fresh_library()
+    PW = _PW()
+    funcs = {"w2p": PW.pinword_to_perm_mapping, "p2w": PW.perm_to_pinword_mapping,
+             "strict": PW.perm_to_strict_pinword_mapping}
+    case = {"length": L, "damaged_table": which, "damage": how}
+    try:
+        r = funcs[which](L)
+        bad, _ = _check_table(PW, which, L)
+        if bad is not None:
+            part.violation("fresh_tables", case, dict(bad, before_damage=True))
+            return
+        if how == "clear_table":
+            r.clear()
+        elif how == "clear_one_value":
+            k = sorted(r, key=repr)[0]
+            if isinstance(r[k], set):
+                r[k].clear()
+            else:
+                r[k] = SENTINEL
+        else:
+            _damage(r)
+        for t in TABLE_KINDS:
+            bad, _ = _check_table(PW, t, L)
+            if bad is not None:
+                part.violation("fresh_tables", case, dict(bad, asked_again=t))
+                return
+        p = R.perms(L)[0]
+        exp = sorted(ref_tables_cached(L)[1].get(p, ()))
+        got = sorted(PW.pinwords_for_basis([Perm(p)]))
+        if got != exp:
+            part.violation("fresh_tables", case, {"asked_again": "pinwords_for_basis", "basis": [p],
+                                                  "n_expected": len(exp), "got": got[:6]})
+    except Exception as exc:  # noqa
+        part.violation("fresh_tables", case, {"exception": repr(exc)})
+
+
+def shard_fresh_results(shard):
+    kind = shard[0]
+    PW, Perm = _PW(), _Perm()
+    part = Partial()
+    if kind == "words":
+        us = [u for k in range(0, 3) for u in ref_words(k)]
+        for w in shard[1]:
+            check_fresh_word(part, PW, w, us)
+        part.add(len(shard[1]) * (1 + len(us)), len(shard[1]) * len(us))
+    elif kind == "basis":
+        for seq in shard[1]:
+            check_fresh_basis(part, PW, Perm, seq)
+        part.add(len(shard[1]), len(shard[1]))
+    elif kind == "enum":
+        check_fresh_enum(part, PW, shard[1])
+        part.add(1, 1)
+    elif kind == "tables":
+        for L, which, how in shard[1]:
+            check_fresh_tables(part, PW, Perm, L, which, how)
+        part.add(len(shard[1]), len(shard[1]))
+    part.bump("fresh_cases", part.evals)
+    return part
+
+
+# --------------------------------------------------------------------------------------------
+# abort: an exception out of the k-th library call of an operation, for EVERY k; then read back
+# --------------------------------------------------------------------------------------------
+
+def _run_with_abort(fn, k, root):
+    """Run fn(); raise _Abort at the k-th 'call' event of a frame whose code lives under root
+    (k=None: never).  Returns (finished?, number of such events seen)."""
+    import sys
+    seen = [0]
+
+    def tracer(frame, event, arg):
+        if event == "call" and frame.f_code.co_filename.startswith(root):
+            seen[0] += 1
+            if seen[0] == k:
+                sys.settrace(None)
+                raise _Abort()
+        return None
+
+    sys.settrace(tracer)
+    try:
+        fn()
+        return True, seen[0]
+    except _Abort:
+        return False, seen[0]
+    finally:
+        sys.settrace(None)
+
+
+def abort_read_back(op, order):
+    """Two read-back orders: tables first (nothing may 'repair' shared state before the next
+    first-time build) and direct entry points first."""
+    lengths = sorted({1, 2} | ({op[1]} if op[0] in IMPLIED else set()))
+    direct = ([["decode", w] for w in DEC_WORDS]
+              + [["word", "2RU4L"], ["pair", "1L3D", "1L3"], ["pair", "244U", "4U"], ["translate", "2UL"]])
+    tabs = table_ops(lengths)
+    if order == "tables_first":
+        return tabs + [list(op)] + direct
+    return direct + [list(op)] + tabs
+
+
+ABORT_ORDERS = ("tables_first", "direct_first")
+
+
+def abort_attempt(warm, op, k, order="tables_first"):
+    """Fresh library, warm-up history, the operation with an abort at call k, then the read-back
+    history on the SAME library state.  Returns (finished, events, failure of the read-back)."""
+    import os
+    import signal
+    import sys
+    from ..core import REPO
+    root = os.path.join(os.path.abspath(REPO), "permuta") + os.sep
+    fresh_library()
+    if warm:
+        run_history(warm, reset=False)
+    finished, events = _run_with_abort(lambda: run_history([op], reset=False), k, root)
+    if k is None:
+        return finished, events, None
+
+    def on_alarm(signum, frame):
+        raise TimeoutError("read-back did not finish within 30 s")
+
+    old = signal.signal(signal.SIGALRM, on_alarm)
+    signal.alarm(30)
+    try:
+        _, fail = run_history(abort_read_back(op, order), reset=False)
+    except TimeoutError as exc:
+        fail = (-1, {"hang": str(exc)})
+    finally:
+        signal.alarm(0)
+        signal.signal(signal.SIGALRM, old)
+    return finished, events, fail
+
+
+def shard_abort(shard):
+    import sys
+    warm, op, part_i, nparts = shard
+    part = Partial()
+    old_hook = sys.unraisablehook
+    sys.unraisablehook = lambda unraisable: None
+    try:
+        _, total, _ = abort_attempt(warm, op, None)
+        n = 0
+        for k in range(1 + part_i, total + 1, nparts):
+            for order in ABORT_ORDERS:
+                finished, _, fail = abort_attempt(warm, op, k, order)
+                if fail is not None:
+                    rb = abort_read_back(op, order)
+                    part.violation("abort", {"warm": warm, "op": op, "abort_at_call": k, "read_back": order},
+                                   dict(fail[1], read_back_step=[fail[0], rb[fail[0]] if 0 <= fail[0] < len(rb) else None],
+                                        calls_in_undisturbed_run=total))
+            n += 1
+        part.add(n, n)
+        part.bump("abort_injection_points", n)
+    finally:
+        sys.unraisablehook = old_hook
+    return part, total
+
+
+# --------------------------------------------------------------------------------------------
 # run
 # --------------------------------------------------------------------------------------------
+
+def json_key(warm, op):
+    return "%s | %s" % (" ".join(map(str, sum(warm, []))) or "-", " ".join(map(str, op)))
+
 
 def _case_size(v):
     def sz(x):
@@ -1603,6 +2076,73 @@ def run(ctx, only=None):
         ctx.section("scale", evaluations=ctx.evals - e0, words=len(words), strict_u=len(SCALE_U),
                     candidates=ctx.counters.get("scale_candidate_pairs", 0))
 
+    if want("forms"):
+        e0 = ctx.evals
+        pool = [p for k in range(0, 4) for p in R.perms(k)]
+        seqs = [list(s) for k in (1, 2, 3) for s in itertools.product(pool, repeat=k)]
+        shards = [("basis", c) for c in split(seqs, 24) if c]
+        shards += [("libbasis", L) for L in range(0, 4)]
+        words = [w for n in range(0, 4) for w in ref_words(n)]
+        shards += [("words", c) for c in split(words, 32) if c]
+        shards += [("misc", L) for L in range(0, 4 if quick else 5)]
+        ctx.pmap(shard_forms, shards)
+        ctx.bounds["forms"] = {
+            "pinwords_for_basis": "every sequence of 1..3 permutations of length <= 3 (repeats, mixed lengths) as "
+                                  "list, tuple, iter, generator, map, reversed, set, frozenset, dict keys, keyword; "
+                                  "Perm.of_length(L) and every Basis of <= 2 permutations, L <= 3",
+            "str_entry_points": "keyword / swapped keyword / instance forms, |w| <= 3, |u| <= 2, every start index",
+            "int_entry_points": "keyword / instance forms, length <= %d" % (3 if quick else 4)}
+        ctx.section("forms", evaluations=ctx.evals - e0)
+
+    if want("fresh"):
+        e0 = ctx.evals
+        words = [w for n in range(0, 5) for w in ref_words(n)]
+        pool = [p for k in range(0, 4) for p in R.perms(k)]
+        seqs = [list(s) for k in (1, 2) for s in itertools.product(pool, repeat=k)]
+        shards = [("words", c) for c in split(words, 32) if c] + [("basis", c) for c in split(seqs, 4) if c]
+        shards += [("enum", L) for L in range(0, 4)]
+        ctx.pmap(shard_fresh_results, shards)
+        ctx.bounds["fresh"] = ("every list-like result (factor_pinword |w| <= 4; list(pinword_occurrences) |u| <= 2; "
+                               "pinwords_for_basis on sequences of <= 2 permutations of length <= 3; "
+                               "pinwords_of_length) is damaged in place at every nesting level and asked again: "
+                               "same object, equal object, instance, keyword; two rounds")
+        ctx.section("fresh", evaluations=ctx.evals - e0)
+
+    import os as _os
+    if (only is not None and "fresh_tables" in only) or _os.environ.get("VERIF_C14_FRESH_TABLES") == "1":
+        # OFF by default: on /repo the three lru-cached tables are shared dict objects (see report)
+        combos = [(L, which, how) for L in (1, 2) for which in TABLE_KINDS
+                  for how in ("clear_one_value", "clear_table", "damage_all")]
+        ctx.pmap(shard_fresh_results, [("tables", c) for c in split(combos, 6) if c])
+        ctx.bounds["fresh_tables"] = "L in 1..2 x table x {clear one value, clear table, damage all}"
+        ctx.section("fresh_tables", cases=len(combos))
+
+    if want("abort"):
+        e0 = ctx.evals
+        ops = [([], ["strict", 2], 12), ([["w2p", 2]], ["strict", 2], 2), ([], ["decode", "3R1D"], 1),
+               ([], ["pair", "1L3D", "1L3"], 2), ([], ["pair", "244U", "4U"], 2), ([], ["word", "2RU4L"], 1),
+               ([["strict", 1]], ["basis", 1], 1)]
+        if not quick:
+            ops += [([], ["w2p", 1], 1), ([], ["w2p", 2], 8), ([], ["p2w", 2], 8), ([], ["basis", 2], 8),
+                    ([["w2p", 2]], ["p2w", 2], 1), ([["p2w", 2]], ["strict", 2], 1),
+                    ([["decode", "24L"]], ["strict", 2], 12), ([], ["strict", 3], 64), ([], ["basis", 3], 64),
+                    ([], ["enum", 2], 1), ([], ["translate", "2UL"], 1), ([], ["translate", "DRD"], 1),
+                    ([], ["interleave", "111", "11", "1"], 2)]
+        shards = [(warm, op, i, n) for warm, op, n in ops for i in range(n)]
+        totals = ctx.pmap(shard_abort, shards)
+        points = {}
+        for (warm, op, i, n), t in zip(shards, totals):
+            points[json_key(warm, op)] = t
+        ctx.bounds["abort"] = {"operations": [{"warm": w, "op": o} for w, o, _ in ops],
+                               "injection": "every k-th 'call' event inside permuta/ during the operation, "
+                                            "k = 1..number of such events",
+                               "injection_points_per_operation": points,
+                               "read_back": "two orders per injection point (tables first / direct entry points "
+                                            "first): every table of lengths 1, 2 (and the operation's own), decodes, "
+                                            "word/pair/translate checkers, the operation again - on the same "
+                                            "library state, 30 s alarm"}
+        ctx.section("abort", evaluations=ctx.evals - e0, injection_points=sum(points.values()))
+
     if want("interleave"):
         e0 = ctx.evals
         shards = [(n, p, 2) for n in range(1, 4) for p in prefixes(n, 1)]
@@ -1707,6 +2247,42 @@ def replay(ctx, rec):
     elif sub == "scale_perm":
         w, u = case["w"], case["u"]
         check_scale_perm(ctx, PW, w, u, F.pin_words_of_perm(F.perm_of(u)), known)
+    elif sub == "forms":
+        Perm = _Perm()
+        if case["fn"] == "pinwords_for_basis" and "basis" in case:
+            check_basis_forms(ctx, PW, Perm, [tuple(p) for p in case["basis"]], only_form=case["form"])
+        elif case["fn"] == "pinwords_for_basis":
+            tmp = Partial()
+            check_library_basis_forms(tmp, PW, Perm, case["length"])
+            for v in tmp.viols:
+                if v["case"] == case:
+                    ctx.violation(v["sub"], v["case"], v["detail"])
+        elif case["fn"] == "str entry points":
+            check_word_forms(ctx, PW, case["w"], [u for k in range(0, 3) for u in ref_words(k)])
+        else:
+            check_misc_forms(ctx, PW, case["length"])
+    elif sub == "fresh":
+        Perm = _Perm()
+        if case["fn"] == "pinwords_for_basis":
+            check_fresh_basis(ctx, PW, Perm, [tuple(p) for p in case["basis"]])
+        elif "length" in case:
+            check_fresh_enum(ctx, PW, case["length"])
+        else:
+            w = case["w"]
+            check_fresh_word(ctx, PW, w if case["fn"] != "sp_to_m" else "1", [u for k in range(0, 3) for u in ref_words(k)])
+    elif sub == "fresh_tables":
+        check_fresh_tables(ctx, PW, _Perm(), case["length"], case["damaged_table"], case["damage"])
+    elif sub == "abort":
+        import sys
+        hook = sys.unraisablehook
+        sys.unraisablehook = lambda unraisable: None
+        try:
+            _, _, fail = abort_attempt(case["warm"], case["op"], case["abort_at_call"],
+                                       case.get("read_back", "tables_first"))
+        finally:
+            sys.unraisablehook = hook
+        if fail is not None:
+            ctx.violation("abort", case, fail[1])
     elif sub == "order":
         build_globals(max(case["maxu"], 3))
         run_order(ctx, case["w"], case["order"], case["maxu"], _silent_known)
